@@ -326,7 +326,7 @@ func twoControllers(w *World) *Violation {
 func C04Scenario() *Scenario {
 	return &Scenario{Prop: "C04", Init: func(w *World) {
 		t := w.T
-		s := NewCompositeSetup(w, GenOpts{PlainOwner: true, AllowCluster: true, MaxWorkers: 3, MaxParents: 2, LookAlikes: true, AvoidKnown: true, ExpressionSel: true, Finalize: 0})
+		s := NewCompositeSetup(w, GenOpts{PlainOwner: true, SameNames: true, AllowCluster: true, MaxWorkers: 3, MaxParents: 2, LookAlikes: true, AvoidKnown: true, ExpressionSel: true, Finalize: 0})
 		variant := t.Pick(6, "variant")
 		switch variant {
 		case 4:
